@@ -117,6 +117,10 @@ class Explorer:
         self.paths = []
         self.prefer = None      # optional callback(cond) -> True/False/None : deliberate cut (recorded)
         self.cuts = []
+        # genericity cut: an *exact* equality test between structurally different symbolic values that the assumptions do not decide is
+        # taken as "not equal" (inputs in general position); the cut is recorded and becomes part of the path condition.  Off by default:
+        # where equalities are what a check is about (index algebra, finite domains) both sides are explored.
+        self.generic_eq = False
 
     # -- one run ------------------------------------------------------------
     def _feasible(self, path_conds, cond):
@@ -164,6 +168,13 @@ class Explorer:
                 can_f = vf != "unsat"
                 if vt == "unknown" or vf == "unknown":
                     _unk[0] = True
+                if can_t and can_f and self.generic_eq and cond[0] == "rel" and cond[1] in ("==", "!="):
+                    pref = cond[1] == "!="
+                    self.cuts.append((cond, pref))
+                    GENERIC_CUTS[0] += 1
+                    _decisions.append((cond, pref, True))
+                    _pc.append(cond if pref else cond_not(cond))
+                    return pref
                 if can_t and can_f and self.prefer is not None:
                     pref = self.prefer(cond)
                     if pref is not None:
@@ -210,10 +221,15 @@ class Explorer:
         return self.paths
 
 
-def run_single_path(fn, name="single"):
+GENERIC_CUTS = [0]      # number of genericity cuts taken in this process (reported with the evidence)
+
+
+def run_single_path(fn, name="single", generic=False):
     """Run fn where every comparison must be entailed (no fork); returns the result.
-    A fork means the harness' assumptions do not decide a guard: harness error."""
+    A fork means the harness' assumptions do not decide a guard: harness error.  generic=True: undecided exact equalities between
+    structurally different values are cut as 'not equal' (see Explorer.generic_eq)."""
     ex = Explorer(max_paths=1, name=name)
+    ex.generic_eq = generic
     try:
         paths = ex.run(fn)
     except PathBudgetExceeded:
@@ -224,10 +240,11 @@ def run_single_path(fn, name="single"):
     return p.result
 
 
-def explore(fn, name="explore", max_paths=8):
+def explore(fn, name="explore", max_paths=8, generic=False):
     """All feasible paths of fn (a data-dependent guard in the analysed code is part of its behaviour and is explored on both
     sides).  A path budget overrun is a harness error (SymError)."""
     ex = Explorer(max_paths=max_paths, name=name)
+    ex.generic_eq = generic
     try:
         return ex.run(fn)
     except PathBudgetExceeded as e:
